@@ -102,12 +102,23 @@ def parse(text):
                 f.blocks["bb0"] = ["_0 = const " + m1.group(3), "return"]
                 consts[m1.group(1)] = f
                 continue
-            m = CONST_RE.match(line)
-            if m:
-                cur = Function(m.group(1), [], m.group(2), line)
-                cur.locals["_0"] = m.group(2)
-                consts[m.group(1)] = cur
-                continue
+            if line.startswith(("const ", "static ")) and line.endswith(" = {"):
+                body = line[line.index(" ") + 1:-4]
+                depth, cut = 0, -1
+                for i, ch in enumerate(body):
+                    if ch == "<":
+                        depth += 1
+                    elif ch == ">" and not (i > 0 and body[i - 1] == "-"):
+                        depth -= 1
+                    elif ch == ":" and depth == 0 and body[i:i + 2] == ": ":
+                        cut = i
+                        break
+                if cut > 0:
+                    cname, cty = body[:cut], body[cut + 2:]
+                    cur = Function(cname, [], cty, line)
+                    cur.locals["_0"] = cty
+                    consts[cname] = cur
+                    continue
             continue
         if line == "}":
             cur = None
